@@ -133,7 +133,6 @@ func (s *FakeSup) die(p *Proc, exit *int, signo *int, cause string) bool {
 	}
 	p.dead = true
 	p.mu.Unlock()
-	p.cancel()
 	ev := supvmodel.Event{Time: uint64(time.Now().UnixMilli())}
 	dom := "runtime"
 	name := p.Name
@@ -150,6 +149,8 @@ func (s *FakeSup) die(p *Proc, exit *int, signo *int, cause string) bool {
 		status = fmt.Sprintf("signal:%d", *signo)
 	}
 	s.rec.Emit("sup", "ProcExit", "name", p.Name, "kind", p.Kind, "base", p.Base, "gen", p.Gen, "status", status, "cause", cause)
+	// the death is on record before the process's connections break
+	p.cancel()
 	go func() {
 		s.events <- ev
 		s.rec.Emit("sup", "ExitDelivered", "name", p.Name, "kind", p.Kind, "base", p.Base, "gen", p.Gen, "status", status)
